@@ -13,6 +13,7 @@ from vt import gen
 
 PROPERTY = "C10"
 TITLE = "Event kernel: one time-aligned signal per ray solution"
+TECHNIQUE = ('runtime monitoring: recorders on antenna.receive, the signal model, writer.add and the trigger functions around EventKernel.event(), decided by recomputation per particle x antenna x ray solution; decoy kernels with other media run first')
 ANCHORS = ["pyrex.kernel:EventKernel.event", "pyrex.kernel:EventKernel.__init__", "pyrex.ray_tracing:BasicRayTracePath.propagate",
            "pyrex.ray_tracing:UniformRayTracePath.propagate", "pyrex.custom.layered_ice.ray_tracing:LayeredRayTracePath.propagate", "pyrex.antenna:Antenna.receive"]
 RULE = ("one case = one kernel configuration {Specialized/Basic/Uniform(max_reflections 0-2)/Layered tracer with matching ice} x "
